@@ -715,6 +715,30 @@ func rejectedConstructFamilies() []OutsideAtom {
 	add("fieldassign_var_nested_ok", "var o9 Outer\n\to9.in.f = x + 1\n\to9.n = 3\n\tx += o9.in.f + o9.n", false)
 	addDecl("fieldassign_param_struct", "type ID_t struct {\n\tv uint64\n}\n\nfunc ID_h(t ID_t, a uint64) uint64 {\n\tt.v = t.v + a\n\treturn t.v\n}\n\nfunc ID_fn(a uint64) uint64 {\n\tt := ID_t{v: 2}\n\treturn ID_h(t, a%9) + t.v\n}")
 	addDecl("fieldassign_value_receiver", "type ID_t struct {\n\tv uint64\n}\n\nfunc (t ID_t) bump(a uint64) uint64 {\n\tt.v = t.v + a\n\treturn t.v\n}\n\nfunc ID_fn(a uint64) uint64 {\n\tt := ID_t{v: 2}\n\treturn t.bump(a%9) + t.v\n}")
+	// --- generic TYPES (only generic functions are in the subset) in every type position
+	gpre := "type ID_box[T any] struct {\n\tv T\n}\n\ntype ID_list[T any] []T\n\n"
+	addDecl("generic_type_var", gpre+"func ID_fn(a uint64) uint64 {\n\tvar b ID_box[uint64]\n\tb.v = a + 1\n\treturn b.v\n}")
+	addDecl("generic_type_literal", gpre+"func ID_fn(a uint64) uint64 {\n\tb := ID_box[uint64]{v: a + 1}\n\treturn b.v\n}")
+	addDecl("generic_type_new", gpre+"func ID_fn(a uint64) uint64 {\n\tb := new(ID_box[uint64])\n\tb.v = a + 1\n\treturn b.v\n}")
+	addDecl("generic_type_param", gpre+"func ID_h(b *ID_box[uint64]) uint64 {\n\treturn b.v + 1\n}\n\nfunc ID_fn(a uint64) uint64 {\n\treturn ID_h(&ID_box[uint64]{v: a})\n}")
+	addDecl("generic_type_slice_elem", gpre+"func ID_fn(a uint64) uint64 {\n\tbs := make([]ID_box[uint64], 2)\n\tbs[1] = ID_box[uint64]{v: a}\n\treturn bs[1].v + bs[0].v\n}")
+	addDecl("generic_type_map_value", gpre+"func ID_fn(a uint64) uint64 {\n\tbm := make(map[uint64]ID_box[uint64])\n\tbm[1] = ID_box[uint64]{v: a}\n\treturn bm[1].v\n}")
+	addDecl("generic_type_field", gpre+"type ID_outer struct {\n\tb ID_box[uint64]\n\tn uint64\n}\n\nfunc ID_fn(a uint64) uint64 {\n\to := &ID_outer{n: a}\n\to.b.v = 3\n\treturn o.n + o.b.v\n}")
+	addDecl("generic_type_method", gpre+"func (b *ID_box[T]) get() T {\n\treturn b.v\n}\n\nfunc ID_fn(a uint64) uint64 {\n\tb := &ID_box[uint64]{v: a + 2}\n\treturn b.get()\n}")
+	addDecl("generic_type_value_method", gpre+"func (b ID_box[T]) get() T {\n\treturn b.v\n}\n\nfunc ID_fn(a uint64) uint64 {\n\tb := ID_box[uint64]{v: a + 2}\n\treturn b.get()\n}")
+	addDecl("generic_named_slice", gpre+"func ID_fn(a uint64) uint64 {\n\tvar l ID_list[uint64]\n\tl = append(l, a)\n\treturn l[0] + uint64(len(l))\n}")
+	addDecl("generic_type_two_instances", gpre+"func ID_fn(a uint64) uint64 {\n\tb1 := &ID_box[uint64]{v: a}\n\tb2 := &ID_box[uint32]{v: 7}\n\treturn b1.v + uint64(b2.v)\n}")
+	addDecl("generic_func_over_generic_type", gpre+"func ID_get[T any](b *ID_box[T]) T {\n\treturn b.v\n}\n\nfunc ID_fn(a uint64) uint64 {\n\treturn ID_get[uint64](&ID_box[uint64]{v: a + 4})\n}")
+	// --- anonymous interface types in every type position
+	addDecl("anon_iface_param", "type ID_s struct {\n\tv uint64\n}\n\nfunc ID_h(x interface{}, a uint64) uint64 {\n\treturn a + 1\n}\n\nfunc ID_fn(a uint64) uint64 {\n\treturn ID_h(ID_s{v: 1}, a)\n}")
+	addDecl("anon_iface_any_param", "func ID_h(x any, a uint64) uint64 {\n\treturn a + 1\n}\n\nfunc ID_fn(a uint64) uint64 {\n\treturn ID_h(a, a)\n}")
+	addDecl("anon_iface_method_literal_param", "type ID_s struct {\n\tv uint64\n}\n\nfunc (s ID_s) get() uint64 {\n\treturn s.v\n}\n\nfunc ID_h(x interface{ get() uint64 }) uint64 {\n\treturn x.get() + 1\n}\n\nfunc ID_fn(a uint64) uint64 {\n\treturn ID_h(ID_s{v: a})\n}")
+	addDecl("anon_iface_field", "type ID_t struct {\n\tx interface{}\n\tn uint64\n}\n\nfunc ID_fn(a uint64) uint64 {\n\tt := &ID_t{n: a}\n\tt.x = a\n\treturn t.n + 1\n}")
+	addDecl("anon_iface_slice_elem", "func ID_fn(a uint64) uint64 {\n\txs := make([]interface{}, 2)\n\txs[0] = a\n\treturn uint64(len(xs)) + a\n}")
+	addDecl("anon_iface_map_value", "func ID_fn(a uint64) uint64 {\n\txm := make(map[uint64]interface{})\n\txm[1] = a\n\treturn uint64(len(xm)) + a\n}")
+	addDecl("anon_iface_result", "func ID_h(a uint64) interface{} {\n\treturn a\n}\n\nfunc ID_fn(a uint64) uint64 {\n\tv := ID_h(a)\n\tif v == nil {\n\t\treturn 0\n\t}\n\treturn a + 1\n}")
+	addDecl("anon_iface_named_type", "type ID_any interface{}\n\nfunc ID_h(x ID_any, a uint64) uint64 {\n\treturn a + 1\n}\n\nfunc ID_fn(a uint64) uint64 {\n\treturn ID_h(a, a)\n}")
+	addDecl("anon_iface_var_assign", "func ID_fn(a uint64) uint64 {\n\tvar x interface{}\n\tx = a\n\tif x != nil {\n\t\treturn a + 1\n\t}\n\treturn 0\n}")
 	// --- min / max / clear builtins
 	add("max_builtin", "x = max(x, 3, y)", false)
 	add("clear_map_builtin", "clear(m)\n\tx += uint64(len(m))", false)
